@@ -286,23 +286,40 @@ fcontract('Peek', '_parse', [
 ], tags=('C09', 'C13'))
 
 
+class _Eff:
+    """the stream a Pointer works on: the one named by its stream= parameter when given, else the enclosing one"""
+    model = 'bytesio'
+
+    def __init__(self, pre):
+        o = S_(pre)
+        g = pre.st.ghost['redirected']
+        x = pre.st.get(pre.st.ghost['otherstream'])
+        self.buf, self.len, self.pos = t.ite(g, x.buf, o.buf), t.ite(g, x.len, o.len), t.ite(g, x.pos, o.pos)
+
+
 def _ptr_target(pre):
-    o = S_(pre)
+    o = _Eff(pre)
     off = _param_int(pre, 'offset')
     return t.ite(t.lt(off, t.ZERO), t.imax(t.add(o.len, off), t.ZERO), off)
 
 
+def _ptr_sub(pre):
+    return Sub(pre, 'subcon', o=_Eff(pre), pos=_ptr_target(pre))
+
+
 def _ptr_parse_ok(pre, post):
     o, o2 = S_(pre), post.obj('stream')
-    s = Sub(pre, 'subcon', pos=_ptr_target(pre))
+    x, x2 = pre.st.get(pre.st.ghost['otherstream']), post.st.get(pre.st.ghost['otherstream'])
+    s = _ptr_sub(pre)
     return [('position-restored', t.eq(o2.pos, o.pos), ('C09',)),
+            ('position-of-the-designated-stream-restored', t.eq(x2.pos, x.pos), ('C09',)),
             ('value-parsed-at-absolute-or-end-relative-offset', result_is(post, s.val), ('C09', 'C08')),
-            ('buffer-unchanged', buffer_same(pre, post), ('C17', 'C09'))]
+            ('buffer-unchanged', t.and_(buffer_same(pre, post), t.eq(x2.buf, x.buf), t.eq(x2.len, x.len)), ('C17', 'C09'))]
 
 
 fcontract('Pointer', '_parse', [
-    Case('ok', 'return', lambda pre: Sub(pre, 'subcon', pos=_ptr_target(pre)).ok, ensures=_ptr_parse_ok, rkind=rk_dyn, modifies=['stream']),
-    Case('inner-fails', 'raise', lambda pre: t.not_(Sub(pre, 'subcon', pos=_ptr_target(pre)).ok), ensures=generic_raise, modifies=['stream']),
+    Case('ok', 'return', lambda pre: _ptr_sub(pre).ok, ensures=_ptr_parse_ok, rkind=rk_dyn, modifies=['stream']),
+    Case('inner-fails', 'raise', lambda pre: t.not_(_ptr_sub(pre).ok), ensures=generic_raise, modifies=['stream']),
 ], tags=('C09', 'C08'), models=('bytesio',))
 
 
